@@ -337,7 +337,10 @@ func ByteSweepHTML() []string {
 // ByteSweepSQL: the same for the SQL side.
 func ByteSweepSQL() []string {
 	tmpl := []string{"1\x01or 1=1", "1 or\x011=1", "1 or 1\x01=1", "1' or\x01'1'='1", "'\x01' or 1", "1 union\x01select 1", "1\x01union select 1", "\x011 or 1=1", "1 or 1=1\x01", "1 or 1=1 --\x01", "1 --\x01x",
-		"1 /*\x01*/ or 1", "q'\x01a\x01' or 1", "$\x01$a$\x01$ or 1", "@\x01 or 1", "1;\x01drop table t", "sel\x01ect 1", "1 or 1=\x011", "x' and\x01'y", "0x\x011", "1e\x011", "1.\x01", "\\\x01", "-\x01-", "/\x01*", "#\x01", "`\x01`", "[\x01]"}
+		"1 /*\x01*/ or 1", "q'\x01a\x01' or 1", "$\x01$a$\x01$ or 1", "@\x01 or 1", "1;\x01drop table t", "sel\x01ect 1", "1 or 1=\x011", "x' and\x01'y", "0x\x011", "1e\x011", "1.\x01", "\\\x01", "-\x01-", "/\x01*", "#\x01", "`\x01`", "[\x01]",
+		// around the words the folder / whitelist compare literally, and behind the comment openers that feed the re-parse gate
+		"1 collate a_\x01", "1 collate a\x01_b", "select a collate b_\x01_ci", "a--\x011 union select 1", "x'--\x011 union select 1", "1 like\x01(1)", "1 in\x01(1)", "1; if\x01(1)",
+		"@@a\x01", "1 into\x01outfile 'x'", "\x01like(1)", "1 not\x01in (1)", "a#\x011 union select 1", "user\x01(1)", "1 union select current_user\x01"}
 	var out []string
 	for _, t := range tmpl {
 		for b := 0; b < 256; b++ {
@@ -394,7 +397,7 @@ func CountSweepSQL() []string {
 // boundaryLens: lengths around the usual capacity boundaries, plus the neighbourhood of every integer
 // constant (and narrow integer type width) the tree under test has in addition to the pinned tree.
 func boundaryLens() []int {
-	return append([]int{62, 63, 64, 65, 66, 126, 127, 128, 129, 130, 254, 255, 256, 257, 258}, newIntPoints(70, 1<<17)...)
+	return append([]int{62, 63, 64, 65, 66, 126, 127, 128, 129, 130, 254, 255, 256, 257, 258}, newIntPoints(70, 1<<21)...)
 }
 
 // newIntPoints: N-1, N, N+1 for every new integer constant N in (lo, hi].
@@ -425,6 +428,9 @@ func LenSQL2() []string {
 	for _, k := range boundaryLens() {
 		out = append(out, rep("a", k), "'"+rep("a", k)+"'", "$"+rep("a", k)+"$x$"+rep("a", k)+"$ or 1", rep("a", k)+" union select 1", "1 or "+rep("a", k)+"=1", "/*"+rep("a", k)+"*/1 or 1")
 	}
+	for _, k := range boundaryLens() {
+		out = append(out, "["+rep("a", k)+"]", "select ["+rep("a", k)+"] from t", "`"+rep("a", k)+"` or 1", "@"+rep("a", k)+" or 1", "1 or "+rep("1", k)+"=1", "0x"+rep("f", k)+" or 1", "--"+rep("a", k)+"\n1 or 1")
+	}
 	for k := 1; k <= 70; k++ {
 		out = append(out, "$"+rep("a", k)+"$x$"+rep("a", k)+"$", "$"+rep("a", k)+"$x$"+rep("A", k)+"$", "$"+rep("a", k)+"$x\xff$"+rep("A", k)+"$")
 	}
@@ -449,6 +455,41 @@ func LenHTML2() []string {
 	}
 	for _, k := range boundaryLens() {
 		out = append(out, "<"+rep("a", k)+" onerror=x>", "<a "+rep("b", k)+"=x onerror=y>", "<a x='"+rep("c", k)+"' onerror=y>", "<script"+rep("\x00", k)+">")
+	}
+	return out
+}
+
+// AttrFormsHTML: (1) every attribute class x value x blanks / NUL before and after the value inside each
+// quoting; (2) every ordered PAIR of attributes of the different classes with a small set of values in one
+// tag (what one attribute does to the judgement of the next: attributeName, remembered types, rewritten
+// table entries).
+func AttrFormsHTML() []string {
+	var out []string
+	names := []string{"href", "style", "onerror", "attributename", "xmlns", "src", "by", "folder", "x", "to", "filter", "formaction"}
+	vals := []string{"javascript:x", "onclick", "xmlns", "x", "expression(1)", "style", "filter", "href"}
+	pads := []string{"", " ", "\t", "\n", "\f", "\r", "\x00"}
+	for _, n := range names {
+		for _, v := range vals {
+			for _, a := range pads {
+				for _, b := range pads {
+					for _, q := range []string{"\"", "'", "`"} {
+						out = append(out, "<a "+n+"="+q+a+v+b+q+">")
+					}
+					if a == "" && b == "" {
+						out = append(out, "<a "+n+"="+v+">")
+					}
+				}
+			}
+		}
+	}
+	for _, n1 := range names {
+		for _, v1 := range vals {
+			for _, n2 := range names {
+				for _, v2 := range vals {
+					out = append(out, "<a "+n1+"="+v1+" "+n2+"="+v2+">", "<set "+n1+"=\""+v1+"\" "+n2+"="+v2+">")
+				}
+			}
+		}
 	}
 	return out
 }
